@@ -13,7 +13,7 @@ EXTRA_MODULES = ['PyhmsVerif.Props.C04Prefix']
 LEVEL = 'proof'
 LEVEL_TEXT = 'Theorems, both directions, all reachable states: the tree best (and each deme best) is a member of the histories and at least as good as every stored individual; along every accepted event sequence the best never gets worse (histories are append-only). Tie: trace refinement (tree and deme bests are in every dump) + monitors incl. best-ever-observed and minimize() budget prefix sweeps. NEW (run level): C04_best_is_best_observed — in every reachable state in which no deme is half-way through a metaepoch (every boundary), for every invocation (x, v) of the objective ever made on behalf of a deme of a population engine, the tree reports a best individual and (x, v) is not strictly better than it; proved from two inductive invariants: Obs (no recorded or pending generation forgot an evaluated individual — the model demands observedOk of every generation and initial population, so a real run that drops its best evaluated offspring is rejected by the trace refinement, category observed) and LogCov (every logged invocation is an evaluated individual of a generation of the deme that issued it). BUDGET PREFIX (Props/C04Prefix.lean): cutoff_closed — the single cutoff layer minimize(maxfun=N) builds answers the first N requests of ANY request stream with the objective own values (invoking it) and every later one with the sentinel; budget_prefix — for N1 <= N2 the answers to the first N1 requests are identical and the invocations under N1 are a prefix of those under N2 (that the seeded engines issue the same requests when given the same answers is environment, checked by the twin minimize runs).'
 LEVEL_NOTE = 'Trusted: Lean kernel + standard axioms; the hand-written tree / sprout model is tied to the code by trace refinement on sampled runs (every run is re-executed by the model; dumps and the output of every stage of the sprout mechanism are diffed); numerical engines, objective values, NumPy distances and user-defined stop-condition verdicts are environment; monitors trusted as failing-input search. The clause -reported best equals the best objective value ever observed (all engines but the local optimiser)- and the budget-prefix clause are checked by monitors (recorder minimum at every boundary; twin minimize() runs with N1<N2), not stated as theorems.'
-TECHNIQUE = "trace refinement against the Lean tree model (Tree.step re-executes real runs) + direct monitors"
+TECHNIQUE = "Lean 4 theorems (inductive invariants of the tree machine Tree.step, proved for all configurations and event sequences) tied to the code by trace refinement (Tree.step re-executes real runs; engine generations replayed bit-exactly by the engine model) + direct monitors as failing-input search"
 RULE = "case = one traced run of a random configuration (1-3 levels, engine per level from the full list, every shipped GSC/LSC kind plus user-defined ones, both stock sprout mechanisms and user-composed chains, hibernation on/off, both directions, decimal boxes, optional cutoff/precision/stats wrappers, shared or per-level problems); non-trivial = run with >= 2 demes and >= 2 metaepochs; distinct by configuration hash"
 ASSUMPTIONS = ["objective is deterministic and never returns NaN", "runs are capped at 12 metaepochs by a user-level composite stop condition"]
 FORCE = None
